@@ -4,6 +4,7 @@
 -/
 import VsgModel.Base.KV
 import VsgModel.Base.Align
+import VsgModel.Base.LineStruct
 import VsgModel.Base.Indent
 import VsgModel.Base.BlankLine
 import VsgModel.Base.Whitespace
@@ -105,6 +106,9 @@ def actTwice (action : KV) (k : String) : Except PyErr Int := do
   | some i => pure i
   | none => throw .typeError
 
+/-- class indices of the layout tokens the line-structure fixes create -/
+def lineCls : LineStruct.Cls := { ws := Gen.wsCls, cr := Gen.crCls, blank := Gen.blankCls }
+
 /-- the model of `owner._fix_violation` applied to the tokens of interest -/
 def fixByOwner (owner : String) (params action : KV) (old : List Tok) : Option (Except PyErr (List Tok)) :=
   if owner ∈ alignOwners then
@@ -144,6 +148,7 @@ def fixByOwner (owner : String) (params action : KV) (old : List Tok) : Option (
   else if owner ∈ betweenPairsOwners then
     some (BlankLine.betweenPairsFixV old)
   else if owner ∈ wsOwners then wsFixByOwner owner params action old
+  else if owner ∈ LineStruct.allOwners then LineStruct.fixByOwner lineCls owner params action old
   else none
 
 end Vsgm.Base
